@@ -34,6 +34,20 @@ CLAIMED["C20"] = ("heap-effect (mutation) summaries over SSA with type-tagged wr
          "'reading never changes the value'; equality of repeated results follows from purity + determinism. Level 'other': analyser unverified.",
          "Caller-supplied function values (custom modifiers/humanizers) are not judged; OptionHumanizer (a printing strategy) is outside the type set.", "§5 C20, §4 E3")
 
+CLIENT_NOTE = "Anchors (constructor, receive loop, send, cancel closure, try closure, retry driver, Close) are resolved by role from the SSA; unresolved anchors fail as UNDECIDED. Schedules, time and PacketConn behaviour are not decided."
+CLAIMED["C10"] = ("CFG must-pass-through + value provenance on the SSA of receive loop / send / SendAndRead; must/may-hold lock dataflow for pendingMu; field-write confinement scan; E3 for buffer aliasing",
+         "Decides per-step necessary conditions of correct routing for both clients on all paths: routing key and delivered value, the filters that must dominate delivery, registration "
+         "(check and store in one critical section, store before transmit, collision refused), the matcher guarding the returned packet, guarded-by discipline of the pending map, "
+         "confinement of Client fields, one receive goroutine, per-datagram buffers. Does not decide linearizability over schedules; hence 'other'.", CLIENT_NOTE, "§5 C10")
+CLAIMED["C11"] = ("CFG dominance / must-pass-through rules on wait select, cancel closure, Close and receive loop; cycle membership of the deadline-creating call; lock dataflow for blocking operations",
+         "Decides the structural conditions under which every call completes: the four select cases and what each returns, one deadline per try (not re-armed in the wait loop), cancel deferred / called "
+         "on the write-error path, close(done) before Lock and on every path, entry deleted on every path, no blocking operation under the lock except the delivery select, Close's CAS/close/Wait order, "
+         "wg pairing, loop exit on read error. Wall-clock bounds and scheduling are not decided; hence 'other'.", CLIENT_NOTE, "§5 C11")
+CLAIMED["C12"] = ("shape rules on the retry driver's loop (phi of the timeout, loop condition, result kinds), value provenance of the WriteTo arguments, use-classification of the message between tries",
+         "Decides that the retry driver runs i=0.. while i<retry or retry<0, starts at c.timeout and exactly doubles after and only after the internal deadline error, that only a try's own deadline "
+         "produces that error, that each try transmits once msg.ToBytes() to dest on the client's conn, that the message is only read between tries, and that the internal error is mapped to ErrNoResponse. "
+         "Actual instants are not decided; hence 'other'.", CLIENT_NOTE, "§5 C12")
+
 NA_REASON = {}
 
 def main():
